@@ -13,7 +13,7 @@ AIRPORTS_JSON = "/repo/crates/rs1090/data/airports.json"
 
 RULE = ("a case is one string through the real parser; families: grammar-generated well-formed specifications "
         "(tcp/udp/ws/rtlsdr/short form x host x port x path x reference given as airport code or 'lat,lon', both '@' and '?'), "
-        "their TOML table forms, mutated specifications (missing/invalid port, missing host, bad scheme, regex "
+        "their TOML table forms (short and long, with and without the optional jump / name / latitude / longitude / altitude keys), mutated specifications (missing/invalid port, missing host, bad scheme, regex "
         "metacharacters, non-ASCII, NUL, very long), random printable and random UTF-8 strings, reference positions alone; "
         "distinct = distinct strings; non-trivial = every string except the empty one")
 
@@ -63,7 +63,7 @@ def latlon_strings(rng):
             return "%.6e" % v
         if fmt == "int":
             return str(int(v))
-        if fmt == "plus" and v >= 0:
+        if fmt == "plus" and not repr(v).startswith("-"):
             return "+" + repr(v)
         return repr(v)
     a, b = one(lat), one(lon)
@@ -79,8 +79,12 @@ def wellformed(rng, airports, fields):
     if scheme == "tcp":
         s = f"tcp://{host}:{port}"
         addr = {"tcp": f"{host}:{port}"}
+        jump = rng.choice(["pi@gateway", "user@10.9.8.7", "gw", "a@b:2222"])
         tomls = [f'tcp = "{host}:{port}"\n', f'tcp = {{ address = "{host}", port = {port} }}\n',
-                 f'[tcp]\naddress = "{host}"\nport = {port}\n']
+                 f'[tcp]\naddress = "{host}"\nport = {port}\n',
+                 # optional keys that do not belong to the endpoint's host and port
+                 f'tcp = {{ address = "{host}", port = {port}, jump = "{jump}" }}\n',
+                 f'[tcp]\naddress = "{host}"\nport = {port}\njump = "{jump}"\n']
     elif scheme == "udp":
         s = f"udp://{host}:{port}"
         addr = {"udp": f"{host}:{port}"}
@@ -92,7 +96,8 @@ def wellformed(rng, airports, fields):
             s = f"ws://{host}:{port}"
         url = f"ws://{host}:{port}/{path}"
         addr = {"websocket": url}
-        tomls = [f'websocket = "{url}"\n', f'websocket = {{ url = "{url}" }}\n']
+        jump = rng.choice(["pi@gateway", "user@10.9.8.7", "gw"])
+        tomls = [f'websocket = "{url}"\n', f'websocket = {{ url = "{url}" }}\n', f'websocket = {{ url = "{url}", jump = "{jump}" }}\n']
     elif scheme == "rtlsdr":
         if rng.random() < 0.3:
             s, addr = "rtlsdr:", {"rtlsdr": None}
@@ -104,6 +109,21 @@ def wellformed(rng, airports, fields):
         s = f":{port}"
         addr = {"tcp": f"0.0.0.0:{port}"}
         tomls = [f'tcp = "0.0.0.0:{port}"\n', f'tcp = {{ address = "0.0.0.0", port = {port} }}\n']
+    # source-level optional keys (alias, receiver position, altitude): none of them is part of the endpoint
+    extra = []
+    for t in tomls:
+        keys = []
+        if rng.random() < 0.5:
+            keys.append('name = "%s"' % rng.choice(["Toulouse", "rtl-sdr", "x", "my receiver 1"]))
+        if rng.random() < 0.5:
+            keys.append("latitude = %r\nlongitude = %r" % (round(rng.uniform(-90, 90), 4), round(rng.uniform(-180, 180), 4)))
+        if rng.random() < 0.3:
+            keys.append("altitude = %r" % round(rng.uniform(0, 3000), 1))
+        if keys:
+            head = "\n".join(keys) + "\n"
+            # top-level keys must come before a [table] header
+            extra.append(head + t)
+    tomls = tomls + extra
     ref = None
     refkind = "noref"
     r = rng.random()
